@@ -25,6 +25,7 @@ RULE = (
     "victim is inside >=1 scope (A) or a check after >=1 request (B); distinct = distinct program / script"
 )
 RULE += '; check_cancellation is also asked inside the handler of a delivered CancelledError; disposables may spawn a task while entering'
+RULE += "; check scripts may spawn a task that fails at once (spawn_fail); a task of the victim's scopes must have ended when the victim has ended (event log)"
 LEVEL_TEXT = (
     "Exhaustive single-fault injection: asyncio delivers a cancel to any task that is not done, and the generated "
     "programs never catch it, so 'not done at injection => task ends cancelled and every task it spawned in its scopes "
@@ -134,6 +135,23 @@ def run_prog(case) -> Outcome:
         for sp, t in run.tasks.items():
             if run.owner_of.get(sp) is not None and not t.done():
                 out.violate("children", f"C07.children/spawned-task-still-running/{phase}{extra}", f"{sp}; inject={k}")
+        # (the loop's teardown cancels whatever is left, so the above only sees tasks that resist) - by the event log: every
+        # task spawned into one of the victim's scopes has ENDED by the time the victim itself has ended
+        order = {id(e): i for i, e in enumerate(run.log)}
+        victim_done = next((order[id(e)] for e in run.log if e["ev"] == "victim_done"), None)
+        if victim_done is not None and res["outcome"] != "hang":
+            started = {tuple(e["path"]) for e in run.log if e["ev"] == "task_start"}
+            ended = {tuple(e["path"]): order[id(e)] for e in run.log if e["ev"] == "task_end"}
+            for sp in run.tasks:
+                if run.owner_of.get(sp) is None or tuple(sp) not in started:
+                    continue
+                if ended.get(tuple(sp), len(run.log)) > victim_done:
+                    out.violate(
+                        "children",
+                        f"C07.children/spawned-task-outlives-the-victim/{phase}{extra}",
+                        f"task {sp} of scope {run.owner_of.get(sp)} was still running when the cancelled victim had ended; inject={k}",
+                    )
+                    break
         # ... and they are cancelled when the cancellation arrives, not awaited until they finish on their own
         # (exact virtual time, same oracle as C06); only judged when the cancellation itself was not lost
         if res["outcome"] == "cancelled":
@@ -173,6 +191,17 @@ def run_check(case) -> Outcome:
             pending = 0  # reference: number of cancellation requests not yet taken back with uncancel()
             i = 0
             stack = []
+            # "spawn_fail": a task spawned into the innermost scope fails at once. The task group then cancels the scope's
+            # body to make it leave; that internal request is the group's own business until the scope has been left
+            # (checks made in between are not judged). It is taken back by the group when it was DELIVERED to the body (the
+            # script's catch) before the scope is left; when the task's failure is only noticed while the scope exit waits,
+            # Python 3.12.1's TaskGroup leaves the request pending (known finding KF1b territory): nothing after that is
+            # judged in this script.
+            internal = {"level": None, "suspended": False, "tainted": False}
+
+            async def failing():
+                raise ValueError("spawned task failed")
+
             while i < len(script):
                 step = script[i]
                 i += 1
@@ -192,6 +221,15 @@ def run_check(case) -> Outcome:
                             me.uncancel()
                             pending -= 1
                             must_deliver["v"] = False  # whether a taken-back request is still delivered is asyncio's business
+                    elif step == "spawn_fail":
+                        if stack and internal["level"] is None and not internal["tainted"]:
+                            ctx.spawn(failing)
+                            internal["level"], internal["suspended"] = len(stack), False
+                    elif step == "check" and (internal["level"] is not None or internal["tainted"]):
+                        try:
+                            ctx.check_cancellation()
+                        except asyncio.CancelledError:
+                            pass
                     elif step == "check":
                         expect = pending > 0
                         try:
@@ -217,16 +255,30 @@ def run_check(case) -> Outcome:
                         await cm.__aenter__()
                         stack.append(cm)
                     elif step == "leave" and stack:
-                        await stack.pop().__aexit__(None, None, None)
+                        left_level = len(stack)
+                        try:
+                            await stack.pop().__aexit__(None, None, None)
+                        finally:
+                            if internal["level"] == left_level:
+                                internal["tainted"] = internal["tainted"] or not internal["suspended"]
+                                internal["level"] = None
                     elif step == "leave_err" and stack:
                         # the block is left with an ordinary exception of its body (handled by the code around it): this
                         # neither makes nor takes back a cancellation request
                         err = ValueError("body failed")
-                        await stack.pop().__aexit__(ValueError, err, None)
+                        left_level = len(stack)
+                        try:
+                            await stack.pop().__aexit__(ValueError, err, None)
+                        finally:
+                            if internal["level"] == left_level:
+                                internal["tainted"] = internal["tainted"] or not internal["suspended"]
+                                internal["level"] = None
                 except asyncio.CancelledError:
                     # the script's own 'catch': delivery of a request; the request stays pending until uncancel()
                     must_deliver["v"] = False
                     obs.append(("caught", None, None, me.cancelling()))
+                    if internal["level"] is not None and internal["level"] == len(stack):
+                        internal["suspended"] = True  # the group's own request reached the body
                     # asked from INSIDE the handler of the delivered CancelledError (cleanup code, a finally block, the
                     # __exit__ of something used in the body): the request is as pending there as after the handler
                     try:
@@ -234,7 +286,8 @@ def run_check(case) -> Outcome:
                         raised = False
                     except asyncio.CancelledError:
                         raised = True
-                    obs.append(("check-in-handler", pending > 0, raised, me.cancelling()))
+                    if internal["level"] is None and not internal["tainted"]:
+                        obs.append(("check-in-handler", pending > 0, raised, me.cancelling()))
             while stack:
                 try:
                     await stack.pop().__aexit__(None, None, None)
@@ -293,12 +346,13 @@ def run_case(case) -> Outcome:
 
 def strategy(tier):
     progs = conc.program(disp_faults=True, body_raises=True).map(lambda p: {"kind": "prog", **p, "inject": None})
-    steps = st.sampled_from(["ctx_cancel", "ctx_cancel", "ext_cancel", "uncancel", "check", "check", "yield", "yield", "other", "enter", "leave", "leave_err"])
+    steps = st.sampled_from(["ctx_cancel", "ctx_cancel", "ext_cancel", "uncancel", "check", "check", "yield", "yield", "other", "enter", "leave", "leave_err", "spawn_fail"])
     checks = st.builds(lambda s: {"kind": "check", "script": s}, st.lists(steps, min_size=1, max_size=10))
     return st.one_of(progs, progs, checks)
 
 
 STEPS = ["ctx_cancel", "ext_cancel", "uncancel", "check", "yield", "other", "enter", "leave", "leave_err"]
+# generated scripts and one extra enumeration also use "spawn_fail" (a task spawned into the innermost scope fails at once)
 
 
 def enumerate_cases(tier):
@@ -310,6 +364,10 @@ def enumerate_cases(tier):
         for script in itertools.product(STEPS, repeat=length):
             if "check" in script or "yield" in script:
                 yield {"kind": "check", "script": list(script)}
+    # a failing spawned task while the body is suspended, the scope left, then checks / further requests
+    for tail in itertools.product(["check", "ctx_cancel", "yield", "enter", "leave"], repeat=2):
+        for leave in ("leave", "leave_err"):
+            yield {"kind": "check", "script": ["enter", "spawn_fail", "yield", "yield", leave, "check", *tail, "check"]}
 
 
 EXHAUSTIVE_MEANS = "part B only: every script over the 8 step kinds up to length 4 (quick) / 5 (thorough) that contains a check or a suspension"
